@@ -177,7 +177,7 @@ def run_decompiled(src, result_name="result"):
 
     bi = {"__import__": imp}
     for nm in free:
-        if nm == "UNPICKLER":
+        if nm in ("UNPICKLER", "__import__"):   # `imp` plays both roles of __import__
             continue
         key = ("builtins", nm)
         cache[key] = Stub(log, ("g",) + key)
